@@ -19,12 +19,12 @@ Truth(v) == IF v.t = "bool" THEN v.b ELSE IF v.t = "num" THEN v.n # 0 ELSE FALSE
 
 Flat(args) == FlattenSeq(args)
 
-(* AND / OR / XOR over the flattened arguments; an error item wins         *)
+(* AND / OR / XOR over the flattened arguments.  The statement fixes the     *)
+(* truth value of logicals, numbers and blanks only; with an error or text   *)
+(* item among them nothing is required.                                      *)
 Junction(kind, args) ==
   LET xs == Flat(args)
   IN IF xs = <<>> THEN EAny
-     ELSE IF \E i \in 1..Len(xs) : IsErr(xs[i]) /\ \A j \in 1..(i - 1) : TruthDefined(xs[j])
-          THEN EVal(FirstErr(xs))
      ELSE IF \E i \in 1..Len(xs) : ~TruthDefined(xs[i]) THEN EAny
      ELSE LET nTrue == Cardinality({i \in 1..Len(xs) : Truth(xs[i])})
           IN CASE kind = "AND" -> ETruth(nTrue = Len(xs))
@@ -115,7 +115,6 @@ AbsExpect(args) ==
 BuiltinExpect(f, args) ==
   CASE f \in {"AND", "OR", "XOR"} -> Junction(f, args)
     [] f = "NOT" -> IF Len(args) # 1 THEN EAny
-                    ELSE IF IsErr(args[1]) THEN EVal(args[1])
                     ELSE IF TruthDefined(args[1]) THEN ETruth(~Truth(args[1])) ELSE EAny
     [] f = "IF" -> IfExpect(args)
     [] f = "IFS" -> IfsExpect(args)
